@@ -965,7 +965,7 @@ def oracle_relay(c, impl, skip_known=False):
     msg = arr_close(impl['a'], impl['d'])
     if msg:
         if impl['cropped'] and sec['via'] == 'direct' and skip_known:
-            return None
+            return None          # (recognition of finding C09-relay-field-exceeds-shape, repaired by 1b12b57; unused since)
         return (f'second leg of a relay {what}: propagate_fft without scratch differs from propagate_dft and from '
                 f'propagate_fft with scratch: {msg}')
     return None
